@@ -73,6 +73,7 @@ class Profile:
     p_rerun: int = 0                    # the judged run is the second run of the same objects
     p_wide: int = 3                     # % of cases whose top scheduler is wide (12..130 jobs)
     p_watch: int = 8                    # a Watch object is passed (shared by the whole tree)
+    p_prelude: int = 8                  # graph queried and re-wired before the run
     p_big: int = 8                      # % of schedulers that may have up to big_members
     big_members: int = 9
     force_nested: int = 0               # % of cases whose top has a nested scheduler for sure
@@ -249,6 +250,7 @@ def scenarios(draw, prof=GENERAL):
     budget = [prof.max_jobs]
     top = _draw_sched(draw, prof, 0, False, budget, top=True)
     top['inspect'] = chance(draw, prof.p_inspect)
+    top['prelude'] = chance(draw, prof.p_prelude)
     if chance(draw, prof.p_rerun):
         top['rerun'] = True
         _force_abstract(top)        # a coroutine object cannot be awaited twice
